@@ -204,6 +204,11 @@ def ops():
     for k in ("UQ", "Q", "Tw3", "Tw2", "Pl", "SV"):
         add("str(%s)" % k, [k], lambda X: str(X))
         add("repr(%s)" % k, [k], lambda X: repr(X))
+    add("str(DQ)", ["DQ"], lambda X: str(X))
+    add("repr(DQ)", ["DQ"], lambda X: repr(X))
+    add("str(SI)", ["v3"], lambda v: str(L.SpatialInertia(2.0, v, np.diag([1.0, 2.0, 3.0]))))
+    add("repr(SI)", ["v3"], lambda v: repr(L.SpatialInertia(2.0, v, np.diag([1.0, 2.0, 3.0]))))
+    add("str(Plane)", ["v3"], lambda v: str(L.Plane.PN([0.1, 0.2, 0.3], list(np.asarray(v, dtype=float) + np.array([0.0, 0.0, 4.0])))))
     add("SE3.Rand", [], lambda: L.SE3.Rand(N=2), random=True)
     add("UQ.Rand", [], lambda: L.UnitQuaternion.Rand(), random=True)
     # binary operators between objects
@@ -328,7 +333,29 @@ def ops():
         add("%s.reverse" % k, [k], lambda X: X.reverse(), mutator=True)
         add("%s.setitem" % k, [k, k], lambda X, Y: X.__setitem__(0, Y[0]), mutator=True)
         add("%s.pop" % k, [k], lambda X: X.pop() if len(X) > 1 else None, mutator=True)
+        # a receiver holding no values: the result must own its list (a later mutation of it may not reach the argument)
+        add("%s.Empty+extend" % k, [k], lambda X: (lambda a: (a.extend(X), a)[1])(type(X).Empty()))
+        add("%s.Empty+append" % k, [k], lambda X: (lambda a: (a.append(X[0]), a)[1])(type(X).Empty()))
+        add("%s.clear+extend" % k, [k, k], lambda X, Y: (X.clear(), X.extend(Y))[1], mutator=True)
+        add("%s.copyctor" % k, [k], lambda X: type(X)(X))
+        add("%s.slice" % k, [k], lambda X: X[0:len(X)])
     return {k: v for k, v in O.items() if v is not None}
+
+
+_CANARY_OBJ = None
+
+
+def _canary(reset=False):
+    """observable process-global state that no library call may change: 'the same call on equal inputs returns equal outputs'
+    also across an intervening, unrelated call.  Every history starts from NumPy's default options, so a leak is reproducible."""
+    global _CANARY_OBJ
+    if reset:
+        np.set_printoptions(edgeitems=3, infstr="inf", linewidth=75, nanstr="nan", precision=8, suppress=False, threshold=1000, formatter=None, sign="-", floatmode="maxprec", legacy=False)
+        np.seterr(divide="warn", over="warn", under="ignore", invalid="warn")
+    if _CANARY_OBJ is None:
+        _CANARY_OBJ = (L.SO3(refs.rodrigues([0.3, -0.5, 0.8], 1.1), check=False), L.Quaternion([1.0, 0.123456789, -2.5, 1e-5]), np.array([1.0 / 3.0, 2e-7, 12345.678]))
+    po = np.get_printoptions()
+    return (tuple(sorted((k, repr(v)) for k, v in po.items())), tuple(sorted(np.geterr().items())), repr(_CANARY_OBJ[0]), str(_CANARY_OBJ[1]), repr(_CANARY_OBJ[2]))
 
 
 def one(X):
@@ -469,6 +496,7 @@ def _history(case):
     table = optable()
     used_result = False
     nres = 0
+    canary0 = _canary(reset=True)
     for step, (name, i, j) in enumerate(case["steps"]):
         kinds, fn, fl = table[name]
         args = []
@@ -501,6 +529,10 @@ def _history(case):
                 role = "argument" if any(x is a for a in args) else "bystander"
                 c.fail(name + "/mutated_" + role, "%s changed a %s of type %s%s" % (name, role, type(x).__name__, " (call raised %r)" % exc if exc else ""), op=name, role=role, step=step)
                 return c.out
+        if _canary() != canary0:
+            c.fail(name + "/global_state", "%s changed process-global state (NumPy print / error options or the text form of an unrelated object): %r -> %r"
+                   % (name, canary0, _canary()), op=name)
+            return c.out
         if fl.get("aug") and exc is None and res is args[0]:
             c.fail(name + "/inplace", "augmented operator returned its left operand object", op=name)
         # repeatability on equal inputs
